@@ -35,7 +35,12 @@ func runC20(o *Out, rng *RNG, tier string, replay string) {
 		"JSONToPlainStringMap, values exhaustive over {\",\\,LF,TAB,0x01,e-acute,a,/,u,0xFF} up to the tier's length plus random byte strings " +
 		"up to 200 bytes; (3) generated JSON documents of the subset (all character forms, whitespace everywhere, arrays, literals, numbers, " +
 		"duplicates, dotted and empty keys, raw control / invalid UTF-8 bytes) and a malformed stream (lone surrogates, bad escapes, truncation, " +
-		"structural damage, byte mutations, random alphabet strings); (4) loader layouts in memfs (json + non-json files, nested directories). " +
+		"structural damage, byte mutations, random alphabet strings); (4) loader layouts in memfs (json + non-json files, nested directories, dot / blank / upper-case directory and file names, " +
+		"look-alike keys inside a file); keys everywhere include look-alikes (case, blanks, one a prefix of the other, control and non-UTF-8 bytes, neighbours of '.'), a quarter of the nested / flat maps " +
+		"carry typed leaves (nil, numbers, booleans, slices, maps of another type) compared by type and value; (5) sizes: chains of 9-32 levels and nodes of 30-90 leaves, documents nested 6-45 deep / " +
+		"40-120 members wide / string leaves of 0.3-4.8 kB, emitted keys of 4-9 segments and maps of 20-50 keys, values up to 4.8 kB (one beyond 4 KiB in every run); (6) configuration route: generated documents and WriteJSON output as " +
+		"config/config_<env>.json -> NewGoatApp -> config scope against encoding/json + own flattening, ReadJSON/WriteJSON round trip; (7) loader beyond the queue size (1001-1300 files), files of " +
+		"64-190 KiB, loads whose consumers are released together by a gated ReadFile (also two loads into one store), storms of 2-5 overlapping I18Mem.Set calls. " +
 		"Observables: result class ok/err/panic, maps as lists sorted by key, emitted text byte for byte. Non-trivial: non-empty map / document " +
 		"with at least one leaf, or an error; distinct by input bytes."
 
@@ -43,6 +48,7 @@ func runC20(o *Out, rng *RNG, tier string, replay string) {
 	if tier == "thorough" {
 		scale = 15
 	}
+	c20Watchdog(o, 20*time.Second)
 
 	noPanic := func(kind, what string, desc interface{}) {
 		if kind == "panic" {
@@ -61,8 +67,25 @@ func runC20(o *Out, rng *RNG, tier string, replay string) {
 	}
 
 	// ---- RecursiveMapToPlainMap: one L1 case (skipped when the result depends on the iteration order)
-	addFlat := func(tree map[string]interface{}, stream string) (string, map[string]string) {
-		kind, got := c20ImplFlatten(tree)
+	// typed: the leaves are arbitrary Go values (numbers, booleans, nil, slices, maps of another type, ...);
+	// they are compared through an injective rendering (type and value), which is also what the Coq
+	// case carries as the leaf: the model treats leaves as opaque
+	var lastFlatRaw map[string]interface{}
+	addFlatX := func(tree map[string]interface{}, typed bool, stream string) (string, map[string]string) {
+		var kind string
+		var got map[string]string
+		lastFlatRaw = nil
+		if typed {
+			var raw map[string]interface{}
+			kind, raw = c20ImplFlattenAny(tree)
+			if kind == "ok" {
+				got, lastFlatRaw = c20EncFlat(raw), raw
+			}
+			tree = c20EncTree(tree)
+			o.Stat("flat_typed")
+		} else {
+			kind, got = c20ImplFlatten(tree)
+		}
 		o.Stat("flat_" + kind)
 		own, collision := c20OwnFlatten(tree)
 		ch, _ := c20Children(tree)
@@ -82,13 +105,26 @@ func runC20(o *Out, rng *RNG, tier string, replay string) {
 		o.AddCase(fmt.Sprintf("CFlat %s %s", ch, c20Fobs(kind, got)), desc, "f:"+ch, len(own) > 0)
 		return kind, got
 	}
+	addFlat := func(tree map[string]interface{}, stream string) (string, map[string]string) {
+		return addFlatX(tree, false, stream)
+	}
 
 	// ---- StringMapToRecursiveMap ("S") / ToRecursiveMap ("I"): one L1 case
+	// variant "T": ToRecursiveMap on typed values (rawT); src is its rendering, the returned tree is
+	// rendered the same way
+	var rawT, lastUnflatRaw map[string]interface{}
 	addUnflat := func(src map[string]string, variant string, stream string) (string, map[string]interface{}) {
 		var kind string
 		var tree map[string]interface{}
 		if variant == "S" {
 			kind, tree = c20ImplUnflatS(src)
+		} else if variant == "T" {
+			kind, tree = c20ImplUnflatI(rawT)
+			lastUnflatRaw = tree
+			if kind == "ok" {
+				tree = c20EncTree(tree)
+			}
+			o.Stat("unflat_typed")
 		} else {
 			isrc := map[string]interface{}{}
 			for k, v := range src {
@@ -172,10 +208,40 @@ func runC20(o *Out, rng *RNG, tier string, replay string) {
 
 	// ================= (1) nested maps
 	goodKeys := []string{"a", "b", "cfg", "x1", "é", "k", "zz"}
+	// dot-free look-alikes of the keys above (case, blanks, one a prefix of the other, control and
+	// non-UTF-8 bytes, neighbours of '.' in byte order): well-formed, so they must survive exactly
+	oddKeys := []string{"A", "Cfg", " a", "a ", "ab", "a b", "a\tb", "\x01", "\xff", "a-b", "a/b", "@a", "a\n", " ", "K", "zz ", "\xc3", "a\x00"}
 	badKeys := []string{"a.b", "", ".", "a.", ".a", "cfg.x1", "a..b", "b.a"}
 	nTrees := 1200 * scale
+	judgeTree := func(tree map[string]interface{}, typedTree bool, stream string) {
+		wf := c20WellFormedTree(tree)
+		if wf {
+			o.Stat("tree_wellformed")
+		} else {
+			o.Stat("tree_malformed")
+		}
+		fkind, flat := addFlatX(tree, typedTree, stream)
+		if fkind != "ok" {
+			return
+		}
+		variants := []string{"S", "I"}
+		if typedTree {
+			variants, rawT, tree = []string{"T"}, lastFlatRaw, c20EncTree(tree)
+		}
+		for _, variant := range variants {
+			ukind, back := addUnflat(flat, variant, stream)
+			if wf {
+				if ukind != "ok" || canonTree(back) != canonTree(tree) {
+					o.Fail("flatten_unflatten", fmt.Sprintf("variant %s: the tree rebuilt from the flattened map differs (kind=%s)", variant, ukind), "flatten_unflatten",
+						map[string]interface{}{"op": "flatten_unflatten", "variant": variant, "tree": c20TreeDesc(tree), "flat": c20Pairs(flat), "kind": ukind, "rebuilt": c20TreeDesc(back)})
+				}
+			}
+		}
+	}
 	for i := 0; i < nTrees; i++ {
 		mal := rng.Chance(15)
+		odd := rng.Chance(30)
+		typedTree := rng.Chance(25)
 		leaves := 0
 		maxDepth := 3
 		if rng.Chance(15) {
@@ -193,6 +259,9 @@ func runC20(o *Out, rng *RNG, tier string, replay string) {
 			m := map[string]interface{}{}
 			for c := 0; c < n; c++ {
 				key := goodKeys[rng.Intn(len(goodKeys))]
+				if odd && rng.Chance(50) {
+					key = oddKeys[rng.Intn(len(oddKeys))]
+				}
 				if mal && rng.Chance(30) {
 					key = badKeys[rng.Intn(len(badKeys))]
 				}
@@ -207,35 +276,19 @@ func runC20(o *Out, rng *RNG, tier string, replay string) {
 					m[key] = gen(depth + 1)
 				} else {
 					m[key] = randVal(6)
+					if typedTree {
+						m[key] = c20TypedLeaf(rng, randVal)
+					}
 					leaves++
 				}
 			}
 			return m
 		}
-		tree := gen(0)
-		wf := c20WellFormedTree(tree)
-		if wf {
-			o.Stat("tree_wellformed")
-		} else {
-			o.Stat("tree_malformed")
-		}
-		fkind, flat := addFlat(tree, "tree")
-		if fkind != "ok" {
-			continue
-		}
-		for _, variant := range []string{"S", "I"} {
-			ukind, back := addUnflat(flat, variant, "tree")
-			if wf {
-				if ukind != "ok" || canonTree(back) != canonTree(tree) {
-					o.Fail("flatten_unflatten", fmt.Sprintf("variant %s: the tree rebuilt from the flattened map differs (kind=%s)", variant, ukind), "flatten_unflatten",
-						map[string]interface{}{"op": "flatten_unflatten", "variant": variant, "tree": c20TreeDesc(tree), "flat": c20Pairs(flat), "kind": ukind, "rebuilt": c20TreeDesc(back)})
-				}
-			}
-		}
+		judgeTree(gen(0), typedTree, "tree")
 	}
 
 	// ================= (1b) flat maps with dotted keys
-	segs := []string{"a", "b", "c", "dd", "a", "b", "c", "dd", "a", "b", "c", ""}
+	segs := []string{"a", "b", "c", "dd", "a", "b", "c", "dd", "a", "b", "c", "", " a", "a ", "A", "ab", "\tb", "\xff"}
 	genSegKey := func() string {
 		n := 1 + rng.Intn(3)
 		p := make([]string, n)
@@ -280,8 +333,17 @@ func runC20(o *Out, rng *RNG, tier string, replay string) {
 			}
 		}
 		src := map[string]string{}
-		for _, k := range keys {
-			src[k] = randVal(5)
+		typedFlat := rng.Chance(25)
+		if typedFlat {
+			rawT = map[string]interface{}{}
+			for _, k := range keys {
+				rawT[k] = c20TypedLeaf(rng, randVal)
+			}
+			src = c20EncFlat(rawT)
+		} else {
+			for _, k := range keys {
+				src[k] = randVal(5)
+			}
 		}
 		_, hasEmpty := src[""]
 		good = good || (!hasEmpty && !c20PrefixConflict(c20SortedKeys(src)))
@@ -290,9 +352,16 @@ func runC20(o *Out, rng *RNG, tier string, replay string) {
 		} else {
 			o.Stat("flatmap_conflict_or_emptykey")
 		}
-		ukind, tree := addUnflat(src, "S", "flat")
-		if rng.Chance(30) {
-			addUnflat(src, "I", "flat")
+		var ukind string
+		var tree map[string]interface{}
+		if typedFlat {
+			ukind, _ = addUnflat(src, "T", "flat")
+			tree = lastUnflatRaw
+		} else {
+			ukind, tree = addUnflat(src, "S", "flat")
+			if rng.Chance(30) {
+				addUnflat(src, "I", "flat")
+			}
 		}
 		if hasEmpty && ukind != "err" && ukind != "panic" {
 			o.Fail("unflatten_flatten", "the empty key was accepted", "unflatten_emptykey", map[string]interface{}{"op": "unflatten_flatten", "map": c20Pairs(src), "kind": ukind})
@@ -303,7 +372,7 @@ func runC20(o *Out, rng *RNG, tier string, replay string) {
 			}
 			continue
 		}
-		fkind, back := addFlat(tree, "flat")
+		fkind, back := addFlatX(tree, typedFlat, "flat")
 		if good && (fkind != "ok" || !c20MapsEqual(back, src)) {
 			o.Fail("unflatten_flatten", fmt.Sprintf("flatten(unflatten m) = %v (kind=%s)", c20Pairs(back), fkind), "unflatten_flatten",
 				map[string]interface{}{"op": "unflatten_flatten", "map": c20Pairs(src), "kind": fkind, "result": c20Pairs(back)})
@@ -312,11 +381,18 @@ func runC20(o *Out, rng *RNG, tier string, replay string) {
 
 	// ================= (2) flat string maps -> JSON text -> map
 	emitSegs := []string{"a", "b", "c", "k1", "é", "x y", "q\"", "b\\", "a", "b", ""} // "" gives leading ".b", inner "a..c", trailing "a."
+	// look-alikes of the segments above and every class of byte the escaper treats in a NAME
+	// (object names and leaf names are written by different statements of the emitter)
+	emitOddSegs := []string{"A", " a", "a ", "ab", "a!", "a/", "a-", "\x01", "\n", "\t", "\r", "\x1f", "\x00", "\x7f", "\xff", "\xc3", "\u00a0", "😀", "K1", "a\\u0041"}
 	genEmitKey := func() string {
 		n := 1 + rng.Intn(3)
 		p := make([]string, n)
+		odd := rng.Chance(25)
 		for i := range p {
 			p[i] = emitSegs[rng.Intn(len(emitSegs))]
+			if odd && rng.Chance(50) {
+				p[i] = emitOddSegs[rng.Intn(len(emitOddSegs))]
+			}
 		}
 		return strings.Join(p, ".")
 	}
@@ -518,8 +594,11 @@ func runC20(o *Out, rng *RNG, tier string, replay string) {
 
 	// ================= (4) loader
 	nLoad := 150 * scale
-	bases := []string{"translations/", "translations/", "i18n/pl/", "./", "t/"}
-	dirs := []string{"", "", "pl/", "en/", "forms/", "pl/forms/", "a/b/c/", "x.json/", "deep/er/still/more/"}
+	bases := []string{"translations/", "translations/", "i18n/pl/", "./", "t/", "", ".i18n/", "T r/"}
+	dirs := []string{"", "", "pl/", "en/", "forms/", "pl/forms/", "a/b/c/", "x.json/", "deep/er/still/more/",
+		".d/", ".git/x/", "..x/", "_p/", " sp/", "PL/", "pl /", "~/", "#1/"}
+	// pairs of keys that a careless normalisation (case, blanks) would fold onto each other
+	alikeKeys := [][2]string{{"Yes", "yes"}, {"no", "NO"}, {"k ", "k"}, {" m", "m"}, {"grp.Open", "grp.open"}, {"é", "É"}, {"t\tx", "t x"}}
 	noPct := func(s string) string { return strings.ReplaceAll(s, "%", "p") }
 	badContents := []string{"", "{", `{"a":`, `[1]`, `{"a":"\ud800"}`, `{"a" 1}`, `{"a":"b"`, `{"a":tru}`}
 	for i := 0; i < nLoad; i++ {
@@ -540,10 +619,11 @@ func runC20(o *Out, rng *RNG, tier string, replay string) {
 		forbidden := map[string]string{}
 		for j := 0; j < nfiles; j++ {
 			selected := rng.Chance(65)
-			outside := base != "./" && rng.Chance(10)
+			outside := base != "./" && base != "" && rng.Chance(10)
 			var name, prefix string
 			if selected && !outside {
-				name = []string{"f" + strconv.Itoa(j) + ".json", strconv.Itoa(j) + ".json", ".json", "x.y.json", "a.txt.json", "pl.json"}[rng.Intn(6)]
+				name = []string{"f" + strconv.Itoa(j) + ".json", strconv.Itoa(j) + ".json", ".json", "x.y.json", "a.txt.json", "pl.json",
+					"..json", " .json", "a b.json", "ü.json", "F.json", ".hidden.json", "json.json", "~.json"}[rng.Intn(14)]
 				prefix = "f" + strconv.Itoa(j)
 			} else {
 				selected = false
@@ -591,6 +671,11 @@ func runC20(o *Out, rng *RNG, tier string, replay string) {
 						}
 					}
 					keys[prefix+"."+k] = v
+				}
+				if rng.Chance(35) {
+					pair := alikeKeys[rng.Intn(len(alikeKeys))]
+					keys[prefix+".@."+pair[0]], keys[prefix+".@."+pair[1]] = noPct(randVal(6))+"1", noPct(randVal(6))+"2"
+					o.Stat("loader_file_lookalike_keys")
 				}
 				kind, text := c20ImplEmit(rng.Bool(), keys)
 				if kind != "ok" {
@@ -709,4 +794,47 @@ func runC20(o *Out, rng *RNG, tier string, replay string) {
 			}
 		}
 	}
+
+	// ================= (5)-(7) sizes, the configuration route, loader sizes and schedules (c20_audit.go)
+	auditFrom := len(o.cases)
+	// long chains and wide nodes (sizes beyond the random trees above)
+	for i := 0; i < 24*scale; i++ {
+		depth, width := 9+rng.Intn(24), 0
+		if i%4 == 3 {
+			depth, width = 1+rng.Intn(3), 30+rng.Intn(60)
+		}
+		typedTree := rng.Chance(25)
+		leaf := func() interface{} {
+			if typedTree {
+				return c20TypedLeaf(rng, randVal)
+			}
+			return randVal(4)
+		}
+		var chain func(d int) map[string]interface{}
+		chain = func(d int) map[string]interface{} {
+			m := map[string]interface{}{}
+			n := rng.Intn(3)
+			if d == 0 {
+				n = 1 + width
+			}
+			for c := 0; c < n; c++ {
+				m["l"+strconv.Itoa(c)] = leaf()
+			}
+			if d > 0 {
+				key := goodKeys[rng.Intn(len(goodKeys))]
+				if rng.Chance(20) {
+					key = oddKeys[rng.Intn(len(oddKeys))]
+				}
+				m[key] = chain(d - 1)
+			}
+			return m
+		}
+		o.Stat("tree_deep_or_wide")
+		judgeTree(chain(depth), typedTree, "deepwide")
+	}
+	ctx := &c20Ctx{o: o, rng: rng, scale: scale, addRead: addRead, doEmitMap: doEmitMap, genKey: genEmitKey, randVal: randVal, randValU: randValU}
+	ctx.sizes()
+	ctx.config()
+	ctx.loaderSizesAndSchedules()
+	c20Spread(o, auditFrom)
 }
